@@ -84,6 +84,9 @@ class Work:
         if getattr(self, "_yield_repo", None):
             shutil.rmtree(self._yield_repo, ignore_errors=True)
         self._yield_repo = None
+        if getattr(self, "_evinst_repo", None):
+            shutil.rmtree(self._evinst_repo, ignore_errors=True)
+        self._evinst_repo = None
         return n > 0
 
     # the files whose interleavings matter: every statement of their functions gets a seeded yield point
@@ -115,9 +118,36 @@ class Work:
         self._yield_repo = dst
         return dst
 
-    def build(self, name, race=False, yielding=False):
-        """go build the harness command zzverif/<name> against the scratch copy (or its yield-instrumented twin)."""
-        key = (name, race, yielding)
+    # the files whose synchronisation actions are logged event by event (harness/evinst) for the model-mode
+    # replay of real executions on the transition-system models (driver area evtrace)
+    EVINST_FILES = [
+        "queue/concurrent_array_blocking_queue.go", "queue/concurrent_linked_blocking_queue.go", "queue/delay_queue.go",
+        "queue/concurrent_linked_queue.go", "syncx/limit_pool.go", "syncx/segment_key_lock.go",
+    ]
+
+    def evinst_repo(self):
+        """A scratch copy whose concurrent files log every synchronisation action (harness/evinst).
+        Returns its path, or None (with self.evinst_log set) if the instrumenter failed."""
+        if getattr(self, "_evinst_repo", None) is not None:
+            return self._evinst_repo or None
+        self._evinst_repo = ""
+        binp, blog = self.build("evinst")
+        if binp is None:
+            self.evinst_log = "evinst does not build: " + blog
+            return None
+        dst = os.path.join(self.dir, "repo-evinst")
+        shutil.copytree(self.repo, dst, symlinks=True)
+        files = [f for f in self.EVINST_FILES if os.path.exists(os.path.join(dst, f))]
+        rc, log = sh([binp, "-root", dst] + files, env=GOENV, timeout=120)
+        if rc != 0:
+            self.evinst_log = "evinst failed (the source left the instrumentable subset): " + log
+            return None
+        self._evinst_repo = dst
+        return dst
+
+    def build(self, name, race=False, yielding=False, evinst=False):
+        """go build the harness command zzverif/<name> against the scratch copy (or its yield-/event-instrumented twin)."""
+        key = (name, race, yielding, evinst)
         if key in self.built:
             return self.built[key]
         repo = self.repo
@@ -125,10 +155,14 @@ class Work:
             repo = self.yield_repo()
             if repo is None:
                 return (None, getattr(self, "yield_log", "no instrumented copy"))
-        out = os.path.join(self.bin, name + ("-race" if race else "") + ("-yield" if yielding else ""))
+        if evinst:
+            repo = self.evinst_repo()
+            if repo is None:
+                return (None, getattr(self, "evinst_log", "no instrumented copy"))
+        out = os.path.join(self.bin, name + ("-race" if race else "") + ("-yield" if yielding else "") + ("-ev" if evinst else ""))
         cmd = ["go", "build", "-tags", "verif"] + (["-race"] if race else []) + ["-o", out, "./zzverif/" + name]
         rc, log = sh(cmd, cwd=repo, env=GOENV, timeout=600)
-        if rc != 0 and not self.blackbox and not yielding:
+        if rc != 0 and not self.blackbox and not yielding and not evinst:
             # a hook may no longer compile against an edited tree: fall back to the black-box stubs
             self.hook_log = log
             if self.use_stub_hooks():
